@@ -4,7 +4,6 @@ import copy
 from .. import backtest, core
 from ..oracles.ledger import LedgerMonitor, strategy_ledger
 from . import common
-from .common import sample_view, shrink  # noqa
 
 ID = "C13"
 LEVEL = "exploration"
@@ -18,10 +17,12 @@ RULE = (
 )
 ASSUMPTIONS = [
     "co-running strategies share streams (same listener arguments) and one simulated client without transaction limit",
-    "World A callbacks only (sports-data, raw-data and custom-event callbacks exist in live mode only)",
+    "80% World A; 20% World B live sessions (exception injected into check/process market book, process_new_market, process_orders during current-orders processing, and custom-event callbacks; delivery of every market update to the other strategies checked); sports-data and raw-data callbacks are NOT covered",
     "process_closed_market is not among the callbacks the property lists and is not injected",
 ]
-COMPONENTS = common.COMPONENTS_A
+from . import C11 as _c11
+
+COMPONENTS = dict(common.COMPONENTS_A, world_B=_c11.COMPONENTS)
 
 
 class CallOrderMonitor(backtest.Monitor):
@@ -52,7 +53,53 @@ class CallOrderMonitor(backtest.Monitor):
 MONITORS = [LedgerMonitor, CallOrderMonitor]
 
 
+def generate_live(rng):
+    from .. import livegen
+
+    sc = livegen.gen_live(rng, "C11")
+    sc.pop("crash_at", None)
+    sc.pop("foreign_bets", None)
+    if len(sc["strategies"]) < 2:
+        sc["strategies"].append({"name": "L1", "markets": list(range(len(sc["markets"]))), "client": 0})
+        mix = {"p_act": 0.6, "p_place": 0.6, "w_cancel": 2, "w_update": 1, "w_replace": 2, "packages": False}
+        for mi in range(len(sc["markets"])):
+            livegen.gen_actions(rng, sc["markets"][mi], "L1", mix)
+    sc["inject"] = {"strategy": "L0", "kind": rng.choice(["check", "book", "orders", "orders", "new"]), "nth": rng.randint(1, 6), "flumine": rng.random() < 0.3}
+    sc["custom_events"] = [{"id": "ce%d" % k, "after_mcm": rng.randint(1, 6), "raise": rng.random() < 0.6, "flumine": rng.random() < 0.3} for k in range(rng.choice([0, 1, 2]))]
+    sc["live_c13"] = True
+    return sc
+
+
+def execute_live(scenario):
+    from .. import live
+
+    run = live.LiveRun(scenario, [CallOrderMonitor], owner=ID)
+    res = run.execute()
+    if res.harness_error or res.discarded:
+        return res
+    fired = any(k.startswith("callback_exception") for k in res.faults)
+    if fired:
+        res.nontrivial = True
+    victim = scenario["inject"]["strategy"]
+    # every other strategy received every delivered market update exactly once, in order
+    for a in run.agents:
+        if a.name == victim:
+            continue
+        for m in scenario["markets"]:
+            n = run.market_cursor[m["id"]]
+            exp = [("check", m["id"], u["pt"]) for u in m["updates"][:n] if u["st"] != "CLOSED"]
+            got = [c for c in a.calls if c[0] == "check" and c[1] == m["id"]]
+            if got != exp:
+                res.violate(ID, "C13.delivery", "live:other-strategy-delivery-changed:exception-in-%s" % scenario["inject"]["kind"], strategy=a.name, expected=len(exp), got=len(got), fired=fired)
+    want_custom = [ce["id"] for ce in scenario.get("custom_events") or () if ce["after_mcm"] <= sum(run.market_cursor.values())]
+    if sorted(run.custom_calls) != sorted(want_custom):
+        res.violate(ID, "C13.delivery", "live:custom-event-callbacks", got=run.custom_calls, expected=want_custom)
+    return res
+
+
 def generate(rng, i, tier):
+    if rng.random() < 0.2:
+        return generate_live(rng)
     knobs = {"p_removal": rng.choice([0.0, 0.2]), "p_suspend": rng.choice([0.0, 0.2]), "p_inplay": rng.choice([0.2, 0.6]), "n_updates": (6, rng.choice([12, 25])), "p_trade": 0.7, "n_runners": (2, 3)}
     mix = {"p_act": rng.choice([0.4, 0.7]), "p_fok": 0.05, "p_sp": 0.05, "where": ("through", "at", "behind", "behind", "behind"), "max_size": 8.0, "w_txn": 0.3}
     sc = common.base_scenario(
@@ -105,6 +152,8 @@ def _run(sc):
 
 
 def execute(scenario):
+    if scenario.get("live_c13"):
+        return execute_live(scenario)
     out = core.Result()
     out.runs = 0
     names = [s["name"] for s in scenario["strategies"]]
@@ -173,6 +222,25 @@ def execute(scenario):
                 out.violate(ID, "C13.state", "other-strategy-ledger-changed:%s" % _fault_site(scenario), strategy=n, fired=fired)
     out.digest = core.digest(digs)
     return out
+
+
+def sample_view(scenario):  # noqa: F811
+    if scenario.get("live_c13"):
+        from . import C11
+
+        v = C11.sample_view(scenario)
+        v["inject"] = scenario["inject"]
+        v["custom_events"] = scenario.get("custom_events")
+        return v
+    return common.sample_view(scenario)
+
+
+def shrink(scenario, test, deadline):  # noqa: F811
+    if scenario.get("live_c13"):
+        from . import C11
+
+        return C11.shrink_live(scenario, test, deadline)
+    return common.shrink(scenario, test, deadline)
 
 
 def _fault_site(sc):
